@@ -344,7 +344,7 @@ def cases(tier, seed):
                 yield {"ctx": "if_noelse", "e": ("par", e)}
     # 2. conditions: comparisons combined by AND / OR / NOT / parentheses
     rels = []
-    for op in X.RELOPS:
+    for op in X.RELOPS + ("=<", "=>"):
         rels.append(("bin", op, ("var", "A"), ("var", "B")))
         rels.append(("bin", op, ("bin", "+", ("var", "A"), ("var", "C")), ("bin", "*", ("var", "B"), X.num(2))))
         rels.append(("bin", op, ("var", "A$"), ("var", "B$")))
